@@ -241,6 +241,134 @@ func (s *factSet) add(fs []dfact, ns []dneq, par map[string]int) {
 func (p *bprover) edgeFacts(from, to *ssa.BasicBlock, s *factSet) {
 	if cond, neg, ok := branchCond(from, to); ok {
 		s.add(p.condFacts(cond, neg))
+		if !neg {
+			p.mapRangeFacts(cond, from, s)
+		}
+		p.boolPhiFacts(cond, neg, s, 0)
+	}
+}
+
+// boolPhiFacts: a branch on a boolean phi (the value form of a || b and a && b): when only one incoming edge of the phi
+// can produce the truth value the branch requires (the others carry the opposite constant), the branch was reached
+// through that edge, so its operand has that truth value and the conditions on the way to that predecessor hold.
+func (p *bprover) boolPhiFacts(cond ssa.Value, neg bool, s *factSet, depth int) {
+	for {
+		u, isNot := cond.(*ssa.UnOp)
+		if !isNot || u.Op != token.NOT {
+			break
+		}
+		cond, neg = u.X, !neg
+	}
+	phi, ok := cond.(*ssa.Phi)
+	if !ok || depth > 3 || !isBoolType(phi.Type()) {
+		return
+	}
+	want := !neg
+	cand := -1
+	for i, e := range phi.Edges {
+		if k, isC := e.(*ssa.Const); isC && k.Value != nil {
+			if (k.Value.ExactString() == "true") != want {
+				continue
+			}
+		}
+		if cand >= 0 {
+			return // more than one way to get this truth value
+		}
+		cand = i
+	}
+	if cand < 0 {
+		return
+	}
+	e := phi.Edges[cand]
+	if _, isC := e.(*ssa.Const); !isC {
+		s.add(p.condFacts(e, neg))
+		p.boolPhiFacts(e, neg, s, depth+1)
+	}
+	stop := phi.Block().Idom()
+	for x := phi.Block().Preds[cand]; x != nil && x != stop; x = x.Idom() {
+		if len(x.Preds) == 1 {
+			p.edgeFacts(x.Preds[0], x, s)
+		}
+	}
+}
+
+// mapRangeFacts: inside the body of `for k := range m` (the edge taken when the iterator yields an element) a counter of
+// the loop header that starts at the constant c0 and grows by one per iteration at most is below c0 + len(m): a map
+// that is not modified by the loop yields each key once, so at most len(m)-1 iterations were completed before this one.
+func (p *bprover) mapRangeFacts(cond ssa.Value, header *ssa.BasicBlock, s *factSet) {
+	ex, ok := cond.(*ssa.Extract)
+	if !ok || ex.Index != 0 {
+		return
+	}
+	nx, ok := ex.Tuple.(*ssa.Next)
+	if !ok || nx.Block() != header {
+		return
+	}
+	rg, ok := nx.Iter.(*ssa.Range)
+	if !ok {
+		return
+	}
+	if _, isMap := rg.X.Type().Underlying().(*types.Map); !isMap {
+		return
+	}
+	// the loop: blocks dominated by the header that can reach it again
+	loops := naturalLoops(header.Parent())
+	body := loops[header]
+	if body == nil {
+		return
+	}
+	for b := range body {
+		for _, in := range b.Instrs {
+			switch x := in.(type) {
+			case *ssa.MapUpdate:
+				if canon(x.Map) == canon(rg.X) {
+					return
+				}
+			case *ssa.Call:
+				if bi, ok := x.Call.Value.(*ssa.Builtin); ok && (bi.Name() == "delete" || bi.Name() == "clear") && len(x.Call.Args) > 0 && canon(x.Call.Args[0]) == canon(rg.X) {
+					return
+				}
+			}
+		}
+	}
+	ln := "len:" + canon(rg.X)
+	p.vals[ln] = rg.X
+	for _, in := range header.Instrs {
+		phi, ok := in.(*ssa.Phi)
+		if !ok {
+			break
+		}
+		if !isIntType(phi.Type()) {
+			continue
+		}
+		c0, have, good := int64(0), false, true
+		for i, pred := range header.Preds {
+			e := phi.Edges[i]
+			if body[pred] {
+				if e == ssa.Value(phi) {
+					continue
+				}
+				bo, ok := e.(*ssa.BinOp)
+				if !ok || bo.Op != token.ADD || bo.X != ssa.Value(phi) {
+					good = false
+					break
+				}
+				if k, ok := constInt(bo.Y); !ok || k != 1 {
+					good = false
+					break
+				}
+				continue
+			}
+			k, ok := constInt(e)
+			if !ok || (have && k != c0) {
+				good = false
+				break
+			}
+			c0, have = k, true
+		}
+		if good && have {
+			s.fs = append(s.fs, dfact{"v:" + phi.Name(), ln, c0 - 1})
+		}
 	}
 }
 
@@ -727,6 +855,12 @@ func (p *bprover) prove(goal dfact, b *ssa.BasicBlock, extra *factSet, depth int
 	p.chainFacts(b, s)
 	if p.direct(goal, s) {
 		return true
+	}
+	if os.Getenv("RG_DEBUG_PROVE") != "" && depth == 6 {
+		fmt.Fprintf(os.Stderr, "prove %s at block %d of %s: facts %v\n", goal, b.Index, p.fn.Name(), s.fs)
+		for x := b; x != nil; x = x.Idom() {
+			fmt.Fprintf(os.Stderr, "   chain block %d preds %d\n", x.Index, len(x.Preds))
+		}
 	}
 	if p.viaCalleeAt(goal, b) {
 		return true
